@@ -445,6 +445,49 @@ def ob_native():
     return bounded(gen(), check)
 
 
+@obligation("params/representation_independent", kind="exhaustive", timeout=600,
+            desc="the parameter proofs treat fft size, prefix size and used-subcarrier count as integers: on the real code the emitted signal "
+                 "and the round trip must not depend on HOW those integers are stored - every LTE-like configuration of a fixed set with the "
+                 "three parameters as Python ints, numpy int16 / int32 / int64 / uint16 / uint32 scalars (constructor and set_parameters): "
+                 "the emitted signal equals the Python-int one (1e-12) and demodulate(modulate(x)) == x")
+def ob_param_representation():
+    from pyphysim.modulators import ofdm
+    cfgs = [(64, 16, 52), (128, 9, 72), (182, 12, 120), (256, 18, 180), (512, 36, 300), (1024, 72, 600), (2048, 144, 1200)]
+    types = [np.int16, np.int32, np.int64, np.uint16, np.uint32]
+
+    def cases():
+        for cfg in cfgs:
+            for t in types:
+                for via in ("constructor", "set_parameters"):
+                    yield {"cfg": list(cfg), "dtype": np.dtype(t).name, "via": via}
+
+    def check(case):
+        fft, cp, used = case["cfg"]
+        t = np.dtype(case["dtype"]).type
+        rr = np.random.RandomState(fft + cp)
+        x = rr.randn(used + 7) + 1j * rr.randn(used + 7)
+        ref = ofdm.OFDM(fft, cp, used)
+        want = ref.modulate(x.copy())
+        import warnings
+        with warnings.catch_warnings():
+            warnings.simplefilter("ignore")
+            with np.errstate(all="ignore"):
+                if case["via"] == "constructor":
+                    o = ofdm.OFDM(t(fft), t(cp), t(used))
+                else:
+                    o = ofdm.OFDM(8, 0, 2)
+                    o.set_parameters(t(fft), t(cp), t(used))
+                got = o.modulate(x.copy())
+                back = o.demodulate(got.copy())
+        if np.shape(got) != want.shape or (not (np.abs(got - want).max() <= 1e-12 * max(1.0, np.abs(want).max()))):
+            return {"emitted signal differs from the one for Python-int parameters": float(np.abs(got - want).max()) if np.shape(got) == want.shape else "shape",
+                    "largest emitted sample": float(np.abs(got).max())}
+        if (not (np.abs(np.asarray(back)[:x.size] - x).max() <= 1e-9)):
+            return {"round trip error": float(np.nan_to_num(np.abs(np.asarray(back)[:x.size] - x).max(), nan=1e300))}
+        return None
+    return exhaustive(cases(), check)
+
+
 @obligation("native/cp_equal_fft_tap_at_fft", kind="bounded",
             desc="corner of the quantifier: cp == fft == 16 with a tap at delay 16 (memory == cp): one-tap equalisation recovers the symbols")
 def ob_corner():
